@@ -202,6 +202,7 @@ RULE = ("seeded random table models (layered re-converging, negative costs, ties
 def check_c01(tier, pid="C01"):
     sc = SolveCheck(pid, tier)
     if pid == "C01": sc.proofs("C01", ["C01_seq_solver_correct_under_diagram_contracts"])
+    if pid == "C02": sc.proofs("C02", ["C02_best_exact_path_replays", "C02_chain_feasible_in_exact_arithmetic"])
     if not sc.build(): return sc.chk.finish()
     n = {"C01": 60, "C02": 40, "C09": 60}.get(pid, 40) * (1 if tier == "quick" else 10)
     kind = "reconv" if pid == "C09" else "plain"
